@@ -464,7 +464,11 @@ def getData (d : DCtx) (w : World) (config : Option Str) (x : Sid) (attributes :
       | some s => Dict.set stored ['s','i','d'] s
       | Option.none => stored
     if attributes.isEmpty then .ok (data.map (fun (k, v) => (k, some v)))
-    else .ok (attributes.map (fun k => (k, data.get k)))
+    else
+      -- `data.get(key)`: a stored JSON `null` is Python's `None`, like a missing key
+      .ok (attributes.map (fun k => (k, match data.get k with
+        | some v => if v == ['n','u','l','l'] then Option.none else some v
+        | Option.none => Option.none)))
 
 /-- one record: `get_data(sid, ...) or {}` where `Sid(sid)` re-resolves the found Sid's uri -/
 def recordOf (d : DCtx) (w : World) (config : Option Str) (x : Sid) (attributes : List Str) (enc : Enc) :
